@@ -112,6 +112,18 @@ void ResolutionProof::endChain(CRef conclusion)
   }
 }
 
+void ResolutionProof::resetEmptyClauseDerivation()
+{
+    auto it = clause_to_proof_der.find(CRef_Undef);
+    if (it == clause_to_proof_der.end()) { return; }
+    // The premises are notified that there is one less derivation where they are used
+    for (CRef premise : it->second.chain_cla) {
+        auto premiseIt = clause_to_proof_der.find(premise);
+        if (premiseIt != clause_to_proof_der.end() and premiseIt->second.ref > 0) { --premiseIt->second.ref; }
+    }
+    clause_to_proof_der.erase(it);
+}
+
 bool ResolutionProof::deleted(CRef cr)
 {
   // Never remove units
